@@ -214,6 +214,17 @@ PROPS["C07"] = {
     "assumptions": ["'reliable' = every datagram is delivered in order before simulated time advances"],
 }
 
+PROPS["C05"] = {
+    "pkg": "chn", "env": {"SIM_PROP": "C05"}, "legs": ["predicates", "predicates", "foreign"],
+    "runs": {"quick": 1500, "thorough": 150000}, "budget": {"quick": 240, "thorough": 2400},
+    "rule": "one run = two real Channels with per-run acceptance predicates (accept all / none / only the peer's key / all but the peer's key) and short timers (rekey 1-4 s), both sides sending from the start (simultaneous initiation) or one only, repeated Sends across rekeys, WaitReady; leg foreign adds a third real Channel with another key that handshakes with A while receiving copies of everything A sends, before or after A and B are established; network drop/duplicate/reorder and all interleavings from the seed; "
+            "non-trivial = several acceptance checks were evaluated and several tasks were runnable at once; distinct = distinct scheduler decision traces",
+    "components": CHN,
+    "level_text": "seeded exploration with invariants evaluated at every Send return, WaitReady return and Deliver result: the channel's RemoteKey() is non-zero and satisfies its predicate whenever the channel is usable, once set it never changes for one channel object, a side that rejects its only peer never has a remote key; afterwards on a reliable network the legitimate pair still exchanges data",
+    "level_note": "trusted: instrumenter, scheduler, simulated network; under accept-all the first key to complete a handshake legitimately owns the channel, so the 'pair still works' clause is applied only when B was established first or A admits B alone",
+    "assumptions": [],
+}
+
 NOT_APPLICABLE = {
     "C17": "pure functions of their input (key/peer-id marshal, parse, equality, fingerprint): no schedule, clock, fault or second party for a simulator to vary; see DESIGN.md §7",
 }
